@@ -24,6 +24,7 @@ class SimPeer:
         self.drop_request = None  # fn(data, src) -> True to ignore a request (lossy phases)
         self.received = []  # (t, src, data)
         self.request_hook = None
+        self.reply_filter = None  # fn(datagram) -> datagram: a spa whose answer is corrupted / from other firmware
 
     @property
     def block(self):
@@ -53,7 +54,10 @@ class SimPeer:
         sock = self.sim._socket
         out, sock._send_handlers = sock._send_handlers, []
         for i, (handler, dest) in enumerate(out):
-            self.net.send(self.addr, (dest[0], dest[1]), handler.send_bytes, base_delay=i * self.spacing)
+            data = handler.send_bytes
+            if self.reply_filter is not None:
+                data = self.reply_filter(data)
+            self.net.send(self.addr, (dest[0], dest[1]), data, base_delay=i * self.spacing)
 
 
 def frame(src_id: bytes, dst_id: bytes, content: bytes) -> bytes:
